@@ -1,15 +1,16 @@
 /-
 Model/Info/Smf.lean — mutagen/smf.py (code side): `_var_int`, `_read_track` (running status, meta events, set-tempo,
-sysex), `_read_midi_length` (`read_chunk`, the MThd checks, the loop over `ntracks` chunks, the tempo list of the first
-track copied in format 1, `events.sort()`, the parts per tempo), `SMFInfo`, `SMF.load`.
+sysex; returns the end tick of the track and its tempo changes `(tick, tempo)` in file order), `_read_midi_length`
+(`read_chunk`, the MThd checks, the loop over `ntracks` chunks, in format 1 the tempo list of the first MTrk chunk for
+all tracks, the integral of the tempo map over [0, end] per track), `SMFInfo`, `SMF.load`.
 Every `raise SMFError` is `.mutagen` (SMFError is a MutagenError); `SMF.load` converts IOError to SMFError (a BytesIO
 raises none).  `IndexError` of `data[offset]` in `_var_int` is caught there and re-raised as SMFError.
 
-The length is a float computed as
-    duration = 0;  for (deltasum, tempo) in parts: duration += (deltasum / float(tickdiv)) * tempo;  duration /= 10 ** 6
-per track, and `max(durations)`.  The model returns the integers that go into it — `tickdiv` and, per MTrk chunk, the
-list of parts — and `Info.render` writes the Python expression with the same operations in the same order; the tie lets
-Python evaluate it and compares floats exactly.
+The length is a float computed per track as
+    duration = 0;  per tempo segment: duration += ticks / float(tickdiv) * tempo;  duration / 10 ** 6
+and `max(durations)`.  The model returns the integers that go into it — `tickdiv` and, per MTrk chunk, the list of
+segments `(ticks, tempo)` — and `Info.render` writes the Python expression with the same operations in the same order; the
+tie lets Python evaluate it and compares floats exactly.
 -/
 import MutagenModel.Model.Info.Common
 set_option linter.unusedVariables false
@@ -32,20 +33,12 @@ def varInt (data : Bytes) (offset : Nat) : Except PyErr (Nat × Nat) := varIntGo
 
 /-! ### `_read_track` -/
 
-/-- an entry of `events` / `tempos`: `(deltasum, type, data)` with TEMPO = 0, MIDI = 1 -/
-structure Ev where
-  tick : Nat
-  type : Nat
-  data : Nat
-deriving DecidableEq, Repr
-
 structure TrackState where
   off : Nat := 0
   deltasum : Nat := 0
   status : Nat := 0
-  /-- in the order appended -/
-  tempos : List Ev := []
-  events : List Ev := []
+  /-- `(deltasum, tempo)` in the order appended -/
+  tempos : List (Nat × Nat) := []
 deriving Repr
 
 /-- one round of the `while off < len(chunk)` loop -/
@@ -69,7 +62,7 @@ def trackStep (chunk : Bytes) (s : TrackState) : Except PyErr TrackState :=
             if metaType = 0x51 then
               let data := readAt chunk off num
               if data.length ≠ 3 then .error .mutagen              -- `raise SMFError`
-              else .ok { s with off := off + num, deltasum := deltasum, tempos := s.tempos ++ [⟨deltasum, 0, ofBE data⟩] }
+              else .ok { s with off := off + num, deltasum := deltasum, tempos := s.tempos ++ [(deltasum, ofBE data)] }
             else .ok { s with off := off + num, deltasum := deltasum }
       else if eventType = 0xF0 ∨ eventType = 0xF7 then
         match varInt chunk off with
@@ -80,10 +73,10 @@ def trackStep (chunk : Bytes) (s : TrackState) : Except PyErr TrackState :=
           -- running status: the byte read is the first data byte
           let et := s.status
           let off := if et / 16 = 0xD ∨ et / 16 = 0xC then off + 1 - 1 else off + 1
-          .ok { s with off := off, deltasum := deltasum, events := s.events ++ [⟨deltasum, 1, delta⟩] }
+          .ok { s with off := off, deltasum := deltasum }
         else if eventType < 0xF0 then
           let off := if eventType / 16 = 0xD ∨ eventType / 16 = 0xC then off + 2 - 1 else off + 2
-          .ok { s with off := off, deltasum := deltasum, status := eventType, events := s.events ++ [⟨deltasum, 1, delta⟩] }
+          .ok { s with off := off, deltasum := deltasum, status := eventType }
         else .error .mutagen                                       -- "invalid event" (0xF1 … 0xF6, 0xF8 … 0xFE)
 
 /-- the loop; every round consumes at least two bytes, so `chunk.length + 1` rounds are never used up
@@ -97,11 +90,11 @@ def trackLoop (chunk : Bytes) : Nat → TrackState → Except PyErr TrackState
       | .ok s' => trackLoop chunk fuel s'
     else .ok s
 
-/-- `_read_track(chunk)` → `(events, tempos)` -/
-def readTrack (chunk : Bytes) : Except PyErr (List Ev × List Ev) :=
+/-- `_read_track(chunk)` → `(deltasum, tempos)`: the end tick and the tempo changes -/
+def readTrack (chunk : Bytes) : Except PyErr (Nat × List (Nat × Nat)) :=
   match trackLoop chunk (chunk.length + 1) {} with
   | .error e => .error e
-  | .ok s => .ok (s.events, s.tempos)
+  | .ok s => .ok (s.deltasum, s.tempos)
 
 /-! ### `_read_midi_length` -/
 
@@ -115,53 +108,36 @@ def readChunk (f : Bytes) (pos : Nat) : Except PyErr (Bytes × Bytes × Nat) :=
     if data.length ≠ chunklen then .error .mutagen
     else .ok (info.take 4, data, pos + 8 + chunklen)
 
-/-- tuple comparison `(deltasum, type, data) <= (…)` -/
-def Ev.le (a b : Ev) : Bool :=
-  decide (a.tick < b.tick) || (decide (a.tick = b.tick) && (decide (a.type < b.type) || (decide (a.type = b.type) && decide (a.data ≤ b.data))))
+/-- the loop over the tempo changes of one track: a segment `(ticks, tempo)` for every `duration += …`, the last one
+from the last change (or 0) to the end -/
+def segsGo (end_ : Nat) : List (Nat × Nat) → Nat → Nat → List (Nat × Nat)
+  | [], last, tempo => [(end_ - last, tempo)]
+  | (tick, new) :: r, last, tempo => (min tick end_ - last, tempo) :: segsGo end_ r (min tick end_) new
 
-def insertEv (a : Ev) : List Ev → List Ev
-  | [] => [a]
-  | b :: r => if a.le b then a :: b :: r else b :: insertEv a r
+def segs (end_ : Nat) (tempos : List (Nat × Nat)) : List (Nat × Nat) := segsGo end_ tempos 0 500000
 
-/-- `events.sort()`: the tuples in ascending order (the order is total, so the result does not depend on the
-algorithm) -/
-def sortEvs : List Ev → List Ev
-  | [] => []
-  | a :: r => insertEv a (sortEvs r)
-
-/-- the `parts` of one track: `(deltasum, tempo)` for every stretch between two tempo events, the last one open -/
-def partsGo : List Ev → Nat → Nat → List (Nat × Nat)
-  | [], tempo, deltasum => [(deltasum, tempo)]
-  | e :: r, tempo, deltasum =>
-    if e.type = 0 then (deltasum, tempo) :: partsGo r e.data 0
-    else partsGo r tempo (deltasum + e.data)
-
-def parts (events : List Ev) : List (Nat × Nat) := partsGo events 500000 0
-
-/-- the loop `for tracknum in range(ntracks)`: the parts of every MTrk chunk; `first` = `first_tempos` (`none`: None) -/
-def tracksLoop (f : Bytes) (format : Nat) : Nat → Nat → Option (List Ev) → Except PyErr (List (List (Nat × Nat)))
+/-- the loop `for tracknum in range(ntracks)`: the segments of every MTrk chunk; `tm` = `tempo_map` (`none`: None) -/
+def tracksLoop (f : Bytes) (format : Nat) : Nat → Nat → Option (List (Nat × Nat)) → Except PyErr (List (List (Nat × Nat)))
   | 0, _, _ => .ok []
-  | n + 1, pos, first =>
+  | n + 1, pos, tm =>
     match readChunk f pos with
     | .error e => .error e
     | .ok (ident, chunk, pos') =>
-      if ident ≠ [0x4D, 0x54, 0x72, 0x6B] then tracksLoop f format n pos' first          -- not "MTrk": continue
+      if ident ≠ [0x4D, 0x54, 0x72, 0x6B] then tracksLoop f format n pos' tm             -- not "MTrk": continue
       else
         match readTrack chunk with
         | .error e => .error e
-        | .ok (events, tempos) =>
-          -- first_tempos = first_tempos or tempos   (None and [] are false)
-          let first' : List Ev := match first with
-            | some l => if l.isEmpty then tempos else l
-            | none => tempos
-          let tempos' := if format = 1 then first' else tempos
-          match tracksLoop f format n pos' (some first') with
+        | .ok (end_, tempos) =>
+          -- format 1: the tempo list of the first MTrk chunk (also when it is empty) applies to all tracks
+          let tm' : Option (List (Nat × Nat)) := if format = 1 then (match tm with | some l => some l | none => some tempos) else tm
+          let tempos' := if format = 1 then (match tm with | some l => l | none => tempos) else tempos
+          match tracksLoop f format n pos' tm' with
           | .error e => .error e
-          | .ok rest => .ok (parts (sortEvs (events ++ tempos')) :: rest)
+          | .ok rest => .ok (segs end_ tempos' :: rest)
 
 structure Info where
   tickdiv : Nat
-  /-- per MTrk chunk, in file order: the parts `(deltasum, tempo)` -/
+  /-- per MTrk chunk, in file order: the segments `(ticks, tempo)` -/
   tracks : List (List (Nat × Nat))
 deriving DecidableEq, Repr
 
